@@ -49,3 +49,20 @@ Definition first_fault (c : config) (f : faults) : option cause :=
   else if cache_bad f then Some CCache
   else if bad_listen f then Some CListen
   else None.
+
+(** The order of the start-up steps [rmain] goes through, as the translator
+    (translator/startorder) names them when it reads rmain off the working tree:
+    the -print-default-template exit, opening the -log file, the -print-ctrl-i
+    exit, setting up the terminal (opshell.New), deferring its cleanup, setting
+    up the HTTPS service.  [rmain] above checks its faults in exactly this order,
+    and "every way out after the terminal is raw is a return" is the translator's
+    count of abrupt exits (log.Fatal*, os.Exit, panic) after opshell.New: zero. *)
+From Coq Require Import String.
+Definition model_startup_order : list string := ["template"; "log"; "ctrl_i"; "shell"; "cleanup"; "server"]%string.
+Definition startup_order_matches (found : list string) : bool :=
+  (fix eqs (a b : list string) : bool :=
+     match a, b with
+     | [], [] => true
+     | x :: a', y :: b' => String.eqb x y && eqs a' b'
+     | _, _ => false
+     end) found model_startup_order.
